@@ -16,6 +16,13 @@ def fmtServe (r : Bool × List Sent) : String :=
   let tail := String.join (r.2.map (fun s => " " ++ fmtSent s))
   s!"set {set} sent {r.2.length}{tail}"
 
+def fmtServeCalls (r : List Bool × List Sent) : String :=
+  let set := ",".intercalate (r.1.map (fun a => if a then "accepted" else "refused"))
+  let tail := String.join (r.2.map (fun s => " " ++ fmtSent s))
+  s!"set {set} sent {r.2.length}{tail}"
+
+def parseCodes (s : String) : Option (List Nat) := (s.splitOn ",").mapM (·.toNat?)
+
 def parseTr : String → Option Transport
   | "udp" => some .udp | "tcp" => some .tcp | _ => none
 def parseRt : String → Option ReqType
@@ -55,6 +62,10 @@ def model (line : String) : String :=
   | ["srv", tr, rt, v, c, _extra] =>
     match parseTr tr, parseRt rt, parseOptNat v, c.toNat? with
     | some tr, some rt, some v, some c => fmtServe (Model.NoResponse.serve tr rt v c)
+    | _, _, _, _ => "bad-op"
+  | ["srvn", tr, rt, v, cs] =>
+    match parseTr tr, parseRt rt, parseOptNat v, parseCodes cs with
+    | some tr, some rt, some v, some cs => fmtServeCalls (Model.NoResponse.serveCalls tr rt v cs)
     | _, _, _, _ => "bad-op"
   | ["is", c, v] =>
     match c.toNat?, v.toNat? with
@@ -107,6 +118,16 @@ def judgeLine (line : String) : String :=
         else
           let (acc, w) := expected tr rt v c
           s!"violates expected set={if acc then "accepted" else "refused"} wire={repr w} (other request options must not matter)"
+      | _, _, _, _, _ => "violates unparsable-observation"
+    | ["srvn", tr, rt, v, cs], "set" :: set :: "sent" :: _n :: rest =>
+      match parseTr tr, parseRt rt, parseOptNat v, parseCodes cs, parseSent rest with
+      | some tr, some rt, some v, some cs, some sent =>
+        let acc := (set.splitOn ",").map (· == "accepted")
+        if (set.splitOn ",").any (fun x => x != "accepted" && x != "refused") then "violates handler-not-run"
+        else if judgeCalls tr rt v cs (acc, sent) then "ok"
+        else
+          let (ea, w) := expectedCalls tr rt v cs
+          s!"violates expected set={",".intercalate (ea.map (fun a => if a then "accepted" else "refused"))} wire={repr w} (the response of the last call that was not refused must go out)"
       | _, _, _, _, _ => "violates unparsable-observation"
     | ["rwl", c, os], o :: _ =>
       match c.toNat?, parseOpts os with
